@@ -173,6 +173,10 @@ def seek_read_scenarios(S, fmt, ch, rate, N, rng, steps=40, T=None, cfg=None):
             S.add("read 1 %s i %d" % (T, n * ch))
         if rng.random() < 0.3:
             S.add("seek 1 0 1")
+    # seek pairs without a read in between (a seek may leave the codec one block ahead): end of data then back into the last block(s)
+    for a, b in ((N, N - 1), (N, max(0, N - B)), (N, max(0, N - B - 1)), (0, N - 1), (N - 1, N), (N, 0)):
+        if 0 <= a <= N and 0 <= b <= N:
+            S.add("seek 1 %d 0" % a, "seek 1 %d 0" % b, "read 1 %s f %d" % (T, 2))
     S.add("close 1")
 
 
